@@ -194,14 +194,22 @@ def name(i):
     return 'layers.n%d' % i
 
 
-TYPES = {'Linear': 'linear', 'Conv1d': 'conv1d', 'Conv2d': 'conv2d', 'BatchNorm1d': 'bn1d', 'BatchNorm2d': 'bn2d'}
+TYPES = {'Linear': 'linear', 'Conv1d': 'conv1d', 'Conv2d': 'conv2d', 'BatchNorm1d': 'bn1d', 'BatchNorm2d': 'bn2d',
+         'PITLinear': 'linear', 'PITConv1d': 'conv1d', 'PITConv2d': 'conv2d'}
 
 
-def excluded(spec, i):
+def listed(spec, i):
+    """node i is named in exclude_names or its module type is in exclude_types (exact type match, as plinio does)"""
     nd = spec['nodes'][i]
     if i in spec.get('exclude_names', []):
         return True
-    return any(TYPES[t] == nd['k'] for t in spec.get('exclude_types', []))
+    pit = nd.get('pit') is not None
+    return any(TYPES[t] == nd['k'] and t.startswith('PIT') == pit for t in spec.get('exclude_types', []))
+
+
+def excluded(spec, i):
+    """node i is effectively excluded from the NAS: listed, and not a hand-placed PIT layer (which stays a PIT layer)"""
+    return listed(spec, i) and spec['nodes'][i].get('pit') is None
 
 
 def pit_kwargs(spec, nn):
@@ -209,7 +217,8 @@ def pit_kwargs(spec, nn):
     if spec.get('exclude_names'):
         kw['exclude_names'] = tuple(name(i) for i in spec['exclude_names'])
     if spec.get('exclude_types'):
-        kw['exclude_types'] = tuple(getattr(nn, t) for t in spec['exclude_types'])
+        import plinio.methods.pit.nn as pnn
+        kw['exclude_types'] = tuple(getattr(pnn, t) if t.startswith('PIT') else getattr(nn, t) for t in spec['exclude_types'])
     if not spec.get('autoconvert', True):
         kw['autoconvert_layers'] = False
     return kw
@@ -380,7 +389,26 @@ class G(GA.G):
         rng = self.rng
         sp = self.sh(cur)[1:]
         r = rng.random()
-        if rng.random() < self.o.get('p_nested', 0.3):
+        if rng.random() < self.o.get('p_squeeze_features', 0.12):
+            # a one-channel map whose (size one) FEATURES axis is squeezed: the next axis becomes the features
+            c = self.sh(cur)[0]
+            if self.dim == 2:
+                kk = rng.choice([1, 3])
+                one = self.add(k='conv2d', src=cur, cin=c, cout=1, ks=[kk, kk], dil=1, stride=1, groups=1, bias=True, padding=kk // 2)
+            else:
+                one = self.add(k='conv1d', src=cur, cin=c, cout=1, ks=1, dil=1, stride=1, groups=1, bias=True)
+            if rng.random() < 0.15:
+                self.excl.append(one)
+            one = self.act(one)
+            cur = self.add(k='squeeze', src=one, dim=1, form=rng.choice(['fn', 'method']))
+            if self.dim == 2:
+                dim0, self.dim = self.dim, 1
+                cur = self.act(self.conv(cur, stride_ok=False, k=rng.choice([1, 2, 3])))
+                self.dim = dim0
+                cur = self.flat(cur) if rng.random() < 0.6 else self.flat(self.add(k='gap1d', src=cur))
+            self.prod.append('head:squeeze-features-axis')
+            r = 2.0
+        elif rng.random() < self.o.get('p_nested', 0.3):
             cur = self.nested(cur)
             r = 2.0          # none of the plain heads below
         if r >= 2.0:
@@ -523,9 +551,13 @@ def _gen(rng, dim=None, depth=None, **opts):
         if names:
             spec['exclude_names'] = names
             g.prod.append('exclude-names')
-    if rng.random() < opts.get('p_noauto', 0.12) and 'exclude_types' not in spec:
-        user_pit(spec, rng)
+    r = rng.random()
+    if r < opts.get('p_noauto', 0.10) and 'exclude_types' not in spec:
+        user_pit(spec, rng, auto=False)
         g.prod.append('autoconvert-off')
+    elif r < opts.get('p_noauto', 0.10) + opts.get('p_placed', 0.08) and 'exclude_types' not in spec:
+        user_pit(spec, rng, auto=True)
+        g.prod.append('autoconvert-on-with-placed-pit-layers')
     return spec
 
 
@@ -562,21 +594,31 @@ def respell(spec, rng, p_neg):
         spec.setdefault('productions', []).append('negative-axis')
 
 
-def user_pit(spec, rng):
-    """autoconvert_layers=False: the user places PIT layers himself.  A careful user: every non-excluded
-    conv / linear becomes a PIT layer with the masker sharing a correct conversion needs (reference
-    partition), frozen where the tensor is tied to a network input/output.  Excluded layers stay nn layers."""
+def user_pit(spec, rng, auto=False):
+    """the user places PIT layers himself (autoconvert_layers=False, or True with hand-placed layers).  A careful user: every
+    non-excluded conv / linear becomes a PIT layer with the masker sharing a correct conversion needs (reference partition),
+    frozen where the tensor is tied to a network input/output or to a fixed layer.  Excluded layers stay nn layers.  Some of the
+    hand-placed PIT layers are ALSO named in exclude_names / exclude_types: they stay PIT layers and must be exported."""
     from . import c09 as C
-    spec['autoconvert'] = False
+    spec['autoconvert'] = auto
     ex = [i for i in range(len(spec['nodes'])) if excluded(spec, i)]
-    spec.pop('exclude_names', None)
     for i, nd in enumerate(spec['nodes']):
         if nd['k'] in ('conv1d', 'conv2d', 'linear') and i not in ex:
             nd['pit'] = 0
     part = C.ref_partition(spec)
+    placed = []
     for i, nd in enumerate(spec['nodes']):
         if nd.get('pit') is not None:
             nd['pit'], nd['pit_frozen'] = part[i]
+            placed.append(i)
+    r = rng.random()
+    if placed and r < 0.55:
+        spec['exclude_names'] = sorted(set(spec.get('exclude_names', []) + rng.sample(placed, min(len(placed), rng.randint(1, 2)))))
+        spec.setdefault('productions', []).append('placed-pit-layer-in-exclude-names')
+    elif placed and r < 0.75 and 'exclude_types' not in spec:
+        k = spec['nodes'][rng.choice(placed)]['k']
+        spec['exclude_types'] = [{'conv1d': 'PITConv1d', 'conv2d': 'PITConv2d', 'linear': 'PITLinear'}[k]]
+        spec.setdefault('productions', []).append('placed-pit-layer-in-exclude-types')
 
 
 def gen_mps(rng):
@@ -640,7 +682,7 @@ def describe(spec):
     def ax(nd):
         d = nd.get('sdim', nd.get('dim')) if nd['k'] == 'cat' else nd.get('sstart') if nd['k'] == 'flatten' else nd.get('dim') if nd['k'] in ('squeeze', 'unsqueeze') else None
         return '' if d is None or (nd['k'] == 'cat' and d == 1) or (nd['k'] == 'flatten' and d == 1) else '[%s%d]' % ('dim=' if nd.get('kw') else '', d)
-    s = ' '.join('%d:%s%s' % (i, nd['k'] + ax(nd) + ('*' if excluded(spec, i) else '') + ('!' if nd.get('pit') is not None else ''), ('<-' + str(nd['src'])) if 'src' in nd else '') for i, nd in enumerate(spec['nodes']))
+    s = ' '.join('%d:%s%s' % (i, nd['k'] + ax(nd) + ('*' if listed(spec, i) else '') + ('!' if nd.get('pit') is not None else ''), ('<-' + str(nd['src'])) if 'src' in nd else '') for i, nd in enumerate(spec['nodes']))
     if spec.get('exclude_types'):
         s += ' exclude_types=%s' % spec['exclude_types']
     if not spec.get('autoconvert', True):
